@@ -1,9 +1,12 @@
 from vpdrv import Job
-JOBS = [
-    Job('tree.sequence', 'C17/actions.cpp', 'h_tree', 'B', defs={'KIND': 0}, reach=['tree'], timeout=1700, clause='SequenceAction over 3 probe leaves: mode, leaf outcomes (succ/fail/block/never), inline or late completion, one control call (none/stop/pause+resume/reset) at a symbolic pass'),
-    Job('tree.parallel', 'C17/actions.cpp', 'h_tree', 'B', defs={'KIND': 1, 'NL': 2}, reach=['tree'], timeout=1700, clause='ParallelAction over 2 probe leaves, same symbolic dimensions'),
-    Job('tree.parallel3', 'C17/actions.cpp', 'h_tree', 'B', defs={'KIND': 1, 'NL': 3}, reach=['tree'], timeout=3400, tier='thorough', clause='ParallelAction over 3 probe leaves'),
-]
+CTLS = ['none', 'stop', 'pause+resume', 'reset', 'pause after completions, then resume-pause-resume', 'pause after completions, then resume']
+JOBS = []
+for c, cn in enumerate(CTLS):
+    JOBS.append(Job('tree.sequence.ctl%d' % c, 'C17/actions.cpp', 'h_tree', 'B', defs={'KIND': 0, 'CTL': c}, reach=['tree'], timeout=1700,
+                    clause='SequenceAction over 3 probe leaves: mode, leaf outcomes (succ/fail/block/never), inline or late completion, control script "%s" at a symbolic pass; then reset and a second run' % cn))
+    JOBS.append(Job('tree.parallel.ctl%d' % c, 'C17/actions.cpp', 'h_tree', 'B', defs={'KIND': 1, 'NL': 2, 'CTL': c}, reach=['tree'], timeout=1700,
+                    clause='ParallelAction over 2 probe leaves, same symbolic dimensions, control script "%s"; then reset and a second run' % cn))
+JOBS.append(Job('tree.parallel3', 'C17/actions.cpp', 'h_tree', 'B', defs={'KIND': 1, 'NL': 3}, reach=['tree'], timeout=3400, tier='thorough', clause='ParallelAction over 3 probe leaves, all control scripts'))
 META = dict(
     explanation='Path-wise symbolic execution (engine/symir.py, z3) of the real flow::Action base class, AssembleAction, SequenceAction, ParallelAction and DummyAction on a fake loop (deferred finish/block notifications run pass by pass) and fake timers. '
                 'Composite mode, every leaf outcome (success / failure / block / never), whether a leaf completes inside its start hook or on a later loop pass, a timeout on the root and one control call (none / stop / pause+resume / reset) at a symbolic pass are symbolic. '
